@@ -219,6 +219,12 @@ def judge(real: tg.Real, st: Stats, rng, ops=None, max_subsets=None, tag=""):
             if r is None:
               r = nd.HasCombination([bobj[g] for g in sub])
             if not r:
+              if d.cyclic and ops is not None and _fresh_subset_ok(ops, d, n, G, sub):
+                # the law holds on a freshly built program: the answer on this long-lived program was
+                # bent by earlier queries in the same solver (the C08 known finding), not a C07 matter
+                st.c["cyclic_subset_answer_depends_on_query_history(C08)"] = st.c.get(
+                    "cyclic_subset_answer_depends_on_query_history(C08)", 0) + 1
+                continue
               viol("subset of an accepted combination is rejected", node=n, goals=list(G),
                    subset=list(sub))
     # CanHaveCombination is exact by definition
@@ -263,8 +269,32 @@ def judge(real: tg.Real, st: Stats, rng, ops=None, max_subsets=None, tag=""):
   return d
 
 
+def _fresh_subset_ok(ops, d, n, G, sub):
+  """Asks G and sub each as the FIRST query of its own freshly rebuilt program; True iff the
+  subset law holds there (G not accepted, or sub accepted)."""
+  def ask(goals):
+    real = tg.Real().replay(ops)
+    d2 = tg.export(real.p, real.vars)
+    if len(d2.objs) != len(d.objs):
+      return None
+    return bool(real.p.cfg_nodes[n].HasCombination([d2.objs[g] for g in goals]))
+  a = ask(G)
+  if a is None:
+    return False
+  if not a:
+    return True
+  return bool(ask(sub))
+
+
 KNOWN_CYCLE_KEY = ("cyclic+conditional graph: a conditional node lying on a cycle behind the query node "
                    "is re-entered and the revisited state is assumed solvable")
+
+
+def _cycle_behind(d, ref, n):
+  for c in ref.back_reach(n):
+    if any(c in ref.back_reach(p) for p in d.pred[c]):
+      return True
+  return False
 
 
 def cond_cycle_behind(d, ref, n):
@@ -411,6 +441,11 @@ def judge_live(program, st, rng, nq, src):
         for sub in itertools.combinations(G, kk):
           st.c["subset_checks"] += 1
           if not nd.HasCombination([bobj[g] for g in sub]):
+            if d.cyclic and _cycle_behind(d, ref, n):
+              # a live graph cannot be rebuilt to ask the subset first; on cyclic graphs the answer may
+              # depend on earlier queries in the same solver (C08 known finding): counted, not judged
+              st.c["live_cyclic_subset_not_judged"] = st.c.get("live_cyclic_subset_not_judged", 0) + 1
+              continue
             lviol("subset of an accepted combination is rejected", n, G, subset=list(sub))
   st.c["positive"] += pos
   st.c["negative"] += neg
